@@ -47,10 +47,14 @@ func (w *World) LiveBound() []LivePod {
 	return out
 }
 
-// Root causes the C04 monitor recognises (two genuine defects of the current tree, see known_findings.d/C04.json).
+// Root causes the C04 monitor recognises (the first two were found by this check and are fixed in /repo; their
+// replays in corpus/C04 are regression histories).
 const (
 	CauseStaleListerBind = "bind-with-stale-lister-stores-old-uid"
 	CauseStaleRecord     = "stale-record-of-same-key-releases-live-pod-ip"
+	// still open: ConfigurePool ignores a failed store delete, a later reload that re-adds the address resurrects the
+	// stale object under the key of a live pod, and resync / Release still act on the whole key
+	CauseReloadDeleteFault = "reload-delete-fault-resurrects-stale-record"
 )
 
 type c04prev struct {
@@ -83,6 +87,9 @@ func MonitorC04(w *World, step int) []hx.Violation {
 		if prev != nil {
 			for _, r := range prev.dump {
 				if !r.Free && r.Key == lp.Key && r.UID != "" && r.UID != string(lp.Pod.UID) {
+					if b, _ := w.Mon["reload-delete-fault"].(bool); b {
+						return CauseReloadDeleteFault + ":by=" + kind
+					}
 					return CauseStaleRecord + ":by=" + kind
 				}
 			}
@@ -233,6 +240,8 @@ func MonitorC01Tracking(w *World, step int) []hx.Violation {
 			w.Mon["c04-cause"] = CauseStaleListerBind
 		case strings.HasPrefix(v.Signature, CauseStaleRecord):
 			w.Mon["c04-cause"] = CauseStaleRecord
+		case strings.HasPrefix(v.Signature, CauseReloadDeleteFault):
+			w.Mon["c04-cause"] = CauseReloadDeleteFault
 		default:
 			w.Mon["c04-cause"] = "c04:" + v.Signature
 		}
